@@ -1,5 +1,6 @@
 (* C02 -- Cost volume holds the configured similarity measure, NaN where not computable.
-   Statements only; proofs are in Proofs/MatchingCostP.v.  The model (Model/MatchingCost.v) is tied
+   Statements only; proofs are in Proofs/MatchingCostP.v (sad, ssd, index arithmetic, masks),
+   Proofs/PopcountP.v + Proofs/CensusP.v (census) and Proofs/ZnccP.v (zncc).  The model (Model/MatchingCost.v) is tied
    to the code by the correspondence run of harness/props/c02.py; the spec is Spec/Cost.v.
 
    Reading guide: [inp] holds the two images (selected band), the optional masks, window size,
@@ -8,7 +9,7 @@
    D = disp_scaled s dmin k = d * s.  [None] is NaN.  The images are total functions: the theorems
    hold for EVERY extension outside [0,ny) x [0,nx), so no cost depends on an out-of-range read. *)
 From Coq Require Import ZArith List Bool QArith.
-From Pandora Require Import Model.MatchingCost Spec.Cost Proofs.MatchingCostP.
+From Pandora Require Import Model.MatchingCost Spec.Cost Proofs.MatchingCostP Proofs.PopcountP Proofs.CensusP Proofs.ZnccP.
 Import ListNotations.
 Open Scope Z_scope.
 
@@ -33,6 +34,105 @@ Theorem C02_ssd_model_eq_spec : forall inp dmin dmax r c k,
                 (i_gmin inp) (i_gmax inp) r c D
   then Some (Qred (ssd_spec (i_w inp) (i_s inp) (i_L inp) (i_R inp) r c D)) else None.
 Proof. exact ssd_model_eq_spec. Qed.
+
+(* CENSUS: for every image size (images smaller than the window included: the code returns early, all NaN),
+   window 1, 3 or 5 (odd, w*w <= 32 so that the bit string fits the uint32 popcount; the code accepts 3 and 5),
+   subpix >= 1, masks, interval grids, every pixel and sample: the cost is the number of window pixels whose
+   "greater than the centre of its window" bits differ between the left window and the (interpolated) right
+   window -- the Hamming distance of the two census bit strings -- when computable, NaN otherwise *)
+Theorem C02_census_model_eq_spec : forall inp dmin dmax r c k,
+  0 < i_w inp /\ Z.odd (i_w inp) = true /\ 0 < i_s inp -> i_w inp * i_w inp <= 32 ->
+  0 <= r < i_ny inp -> 0 <= c < i_nx inp -> 0 <= k < nb_disp (i_s inp) dmin dmax ->
+  census_volume inp dmin dmax r c k =
+  let D := disp_scaled (i_s inp) dmin k in
+  if computable (i_ny inp) (i_nx inp) (i_w inp) (i_s inp) (i_mL inp) (i_mR inp) (i_vp inp) (i_nd inp)
+                (i_gmin inp) (i_gmax inp) r c D
+  then Some (Qred (census_spec (i_w inp) (i_s inp) (i_L inp) (i_R inp) r c D)) else None.
+Proof. exact census_model_eq_spec. Qed.
+
+(* Census.popcount32b returns the number of set bits of every uint32 *)
+Theorem C02_popcount32b_correct : forall x, 0 <= x < 2 ^ 32 -> popcount32b x = pc 32 x.
+Proof. exact popcount32b_correct. Qed.
+
+(* census_transform writes one bit per window pixel ("pixel > centre of the window"), row-major, first pixel
+   in the most significant bit; the xor/popcount of two transforms counts the window pixels whose bits differ *)
+Theorem C02_census_hamming : forall w I J r c r2 c2, 0 < w -> w * w <= 32 ->
+  popcount32b (Z.lxor (census_transform w I r c) (census_transform w J r2 c2))
+  = zsum (map (fun a => zsum (map (fun b =>
+       Z.b2z (xorb (I (r + a) (c + b) >? I (r + offset w) (c + offset w))
+                   (J (r2 + a) (c2 + b) >? J (r2 + offset w) (c2 + offset w)))) (zrange 0 w))) (zrange 0 w)).
+Proof. exact census_hamming. Qed.
+
+(* ZNCC: for every image size (smaller than the window included), odd window, subpix >= 1, masks, interval
+   grids, every pixel and sample: the cell is NaN exactly when the cost is not computable; otherwise it is the
+   integer triple (cm, vlm, vrm) with  covariance = cm / (s w^4),  varL = vlm / w^4,  varR = vrm / (s^2 w^4)
+   (covariance and variances of the two windows as the spec defines them, right window interpolated), both
+   variances >= 0, and the triple determines the same cost as the spec: for every v, "v = cm / sqrt(vlm vrm), 0 when
+   vlm vrm <= 0" (stated without square root by [zncc_is]) iff "v = cov / sqrt(varL varR), 0 when a variance is 0" *)
+Theorem C02_zncc_model_eq_spec : forall inp dmin dmax r c k,
+  0 < i_w inp /\ Z.odd (i_w inp) = true /\ 0 < i_s inp ->
+  0 <= r < i_ny inp -> 0 <= c < i_nx inp -> 0 <= k < nb_disp (i_s inp) dmin dmax ->
+  let D := disp_scaled (i_s inp) dmin k in
+  let w := i_w inp in let s := i_s inp in
+  let comp := computable (i_ny inp) (i_nx inp) w s (i_mL inp) (i_mR inp) (i_vp inp) (i_nd inp)
+                         (i_gmin inp) (i_gmax inp) r c D in
+  let cov := zncc_cov w s (i_L inp) (i_R inp) r c D in
+  let varl := zncc_varl w s (i_L inp) (i_R inp) r c D in
+  let varr := zncc_varr w s (i_L inp) (i_R inp) r c D in
+  let qw4 := inject_Z (w * w * (w * w)) in
+  match zncc_volume inp dmin dmax r c k with
+  | Some (cm, vlm, vrm) =>
+      comp = true
+      /\ (cov == inject_Z cm / (inject_Z s * qw4) /\ varl == inject_Z vlm / qw4
+          /\ varr == inject_Z vrm / (inject_Z (s * s) * qw4))%Q
+      /\ 0 <= vlm /\ 0 <= vrm
+      /\ (forall v : Q, zncc_is v (inject_Z cm) (inject_Z vlm) (inject_Z vrm) <-> zncc_is v cov varl varr)
+  | None => comp = false
+  end.
+Proof.
+  intros inp dmin dmax r c k Hwf Hr Hc Hk. cbv zeta.
+  pose proof (zncc_model_eq_spec inp dmin dmax r c k Hwf Hr Hc Hk) as H. cbv zeta in H.
+  destruct (zncc_volume inp dmin dmax r c k) as [[[cm vlm] vrm]|]; exact H.
+Qed.
+
+(* compute_mean_raster / compute_std_raster: the two cumulative sums (leading zero row / column, differences at
+   distance w) give the direct window sum, and E[x^2] - E[x]^2 (times w^4) the direct window variance, which
+   is never negative *)
+Theorem C02_mean_raster_eq_window_mean : forall w ny_ nx_ I r c, 0 <= w -> 0 <= r -> 0 <= c ->
+  sum_raster w ny_ nx_ I r c
+  = zsum (map (fun a => zsum (map (fun b => I (r + a) (c + b)) (zrange 0 w))) (zrange 0 w))
+  /\ var_raster w ny_ nx_ I r c
+    = w * w * zsum (map (fun a => zsum (map (fun b => I (r + a) (c + b) * I (r + a) (c + b)) (zrange 0 w))) (zrange 0 w))
+      - sum_raster w ny_ nx_ I r c * sum_raster w ny_ nx_ I r c
+  /\ (0 < w -> 0 <= var_raster w ny_ nx_ I r c).
+Proof.
+  intros w ny_ nx_ I r c Hw Hr Hc. split; [exact (sum_raster_eq w ny_ nx_ I r c Hw Hr Hc)|].
+  split.
+  - rewrite (var_raster_eq w ny_ nx_ I r c Hw Hr Hc), (sum_raster_eq w ny_ nx_ I r c Hw Hr Hc). reflexivity.
+  - intros Hw'. rewrite (var_raster_eq w ny_ nx_ I r c Hw Hr Hc). apply wsum_variance_nonneg. exact Hw'.
+Qed.
+
+(* maximal cost: a census cost never exceeds cmax = w * w; a zncc cell has cov^2 <= varL varR (Cauchy-Schwarz on
+   the two windows), so the cost it determines lies in [-1, 1], cmax = 1 *)
+Theorem C02_census_cost_le_cmax : forall inp dmin dmax r c k z,
+  0 < i_w inp /\ Z.odd (i_w inp) = true /\ 0 < i_s inp -> i_w inp * i_w inp <= 32 ->
+  0 <= r < i_ny inp -> 0 <= c < i_nx inp -> 0 <= k < nb_disp (i_s inp) dmin dmax ->
+  census_volume_z inp dmin dmax r c k = Some z -> 0 <= z <= cmax Census inp.
+Proof. exact census_cost_bounded. Qed.
+
+Theorem C02_zncc_cost_le_cmax : forall inp dmin dmax r c k cm vlm vrm,
+  0 < i_w inp /\ Z.odd (i_w inp) = true /\ 0 < i_s inp ->
+  0 <= r < i_ny inp -> 0 <= c < i_nx inp -> 0 <= k < nb_disp (i_s inp) dmin dmax ->
+  zncc_volume inp dmin dmax r c k = Some (cm, vlm, vrm) ->
+  cm * cm <= vlm * vrm
+  /\ forall v : Q, zncc_is v (inject_Z cm) (inject_Z vlm) (inject_Z vrm) -> (v * v <= inject_Z (cmax Zncc inp))%Q.
+Proof. exact zncc_volume_bounded. Qed.
+
+(* the cost cov / sqrt(varL varR) does not depend on the scaling of the triple *)
+Theorem C02_zncc_scale_invariant : forall v cov vl vr k1 k2 k3,
+  (0 < k1 -> 0 < k2 -> 0 < k3 -> k1 * k1 == k2 * k3 ->
+   (zncc_is v (k1 * cov) (k2 * vl) (k3 * vr) <-> zncc_is v cov vl vr))%Q.
+Proof. exact zncc_is_scale. Qed.
 
 (* point_interval: left column c belongs to the left range iff columns floor(c + d) and ceil(c + d)
    are inside the right image; the matched column of resampled image i is c + floor d; the two
@@ -68,6 +168,18 @@ Definition ex_inp : mc_input :=
   MkIn 3 5 3 2 (ex_img [[1;2;3;4;5];[2;4;6;8;9];[1;1;2;3;5]]) (ex_img [[1;3;2;4;6];[2;5;6;7;9];[0;1;2;2;5]])
        None (Some (ex_img [[1;0;0;0;0];[0;0;0;0;0];[0;0;0;0;0]])) 0 1
        (fun _ c => if c =? 3 then 1 else -1) (fun _ _ => 1).
+(* census / zncc on the same pair with a non-monotone left image (window 3, subpix 2): Hamming distance 2 at
+   d = +1/2, NaN at d = -1/2; zncc triple at d = +1/2: covariance -96 / (2 * 81) (negative correlation),
+   variances 272 / 81 and 1404 / (4 * 81), NaN at d = -1/2 *)
+Definition ex_inp2 : mc_input :=
+  MkIn 3 5 3 2 (ex_img [[5;2;3;4;1];[2;4;6;1;9];[1;7;2;3;5]]) (ex_img [[1;3;2;4;6];[2;5;6;7;9];[0;1;2;2;5]])
+       None (Some (ex_img [[1;0;0;0;0];[0;0;0;0;0];[0;0;0;0;0]])) 0 1
+       (fun _ c => if c =? 3 then 1 else -1) (fun _ _ => 1).
+Example C02_example_census_zncc :
+  census_volume ex_inp2 (-1) 1 1 2 3 = Some 2%Q /\ census_volume ex_inp2 (-1) 1 1 2 1 = None
+  /\ zncc_volume ex_inp2 (-1) 1 1 2 3 = Some (-96, 272, 1404) /\ zncc_volume ex_inp2 (-1) 1 1 2 1 = None.
+Proof. vm_compute. repeat split. Qed.
+
 Example C02_example :
   sad_volume ex_inp (-1) 1 1 2 3 = Some (9 # 2)%Q /\ ssd_volume ex_inp (-1) 1 1 2 3 = Some (17 # 4)%Q
   /\ sad_volume ex_inp (-1) 1 1 2 2 = Some 5%Q /\ sad_volume ex_inp (-1) 1 1 2 1 = None
@@ -76,6 +188,14 @@ Proof. vm_compute. repeat split. Qed.
 
 Print Assumptions C02_sad_model_eq_spec.
 Print Assumptions C02_ssd_model_eq_spec.
+Print Assumptions C02_census_model_eq_spec.
+Print Assumptions C02_popcount32b_correct.
+Print Assumptions C02_census_hamming.
+Print Assumptions C02_zncc_model_eq_spec.
+Print Assumptions C02_mean_raster_eq_window_mean.
+Print Assumptions C02_zncc_scale_invariant.
+Print Assumptions C02_census_cost_le_cmax.
+Print Assumptions C02_zncc_cost_le_cmax.
 Print Assumptions C02_point_interval_spec.
 Print Assumptions C02_dsp_index.
 Print Assumptions C02_measure_metadata.
